@@ -134,6 +134,142 @@ func smtStr(s string) string {
 }
 
 // constStringArgs returns the constant string arguments (position arg) of calls to callee in fn.
+// regexLiteral: v is regexp.MustCompile("const") or the first result of regexp.Compile("const").
+func regexLiteral(v ssa.Value) string {
+	if e, ok := v.(*ssa.Extract); ok {
+		v = e.Tuple
+	}
+	c, ok := v.(*ssa.Call)
+	if !ok {
+		return ""
+	}
+	f := c.Call.StaticCallee()
+	if f == nil || (f.String() != "regexp.Compile" && f.String() != "regexp.MustCompile") {
+		return ""
+	}
+	if k, ok := c.Call.Args[0].(*ssa.Const); ok && k.Value != nil && k.Value.Kind() == constant.String {
+		return constant.StringVal(k.Value)
+	}
+	return ""
+}
+
+type tmplPart struct{ lit, field string }
+
+// stringTemplate reads a string-valued function as a concatenation of constants and fields of its
+// receiver: constants, field loads, +, fmt.Sprintf with a constant format of %s/%v verbs, and calls of
+// functions of the same package that are templates themselves.  Anything else is an error.
+func stringTemplate(fn *ssa.Function, bind map[*ssa.Parameter][]tmplPart, depth int) ([]tmplPart, error) {
+	if depth > 5 || fn.Blocks == nil {
+		return nil, fmt.Errorf("%s: no body / too deep", fn)
+	}
+	if len(fn.Blocks) != 1 {
+		return nil, fmt.Errorf("%s has branches", fn)
+	}
+	var eval func(v ssa.Value) ([]tmplPart, error)
+	eval = func(v ssa.Value) ([]tmplPart, error) {
+		switch x := v.(type) {
+		case *ssa.Const:
+			if x.Value != nil && x.Value.Kind() == constant.String {
+				return []tmplPart{{lit: constant.StringVal(x.Value)}}, nil
+			}
+		case *ssa.Parameter:
+			if b, ok := bind[x]; ok {
+				return b, nil
+			}
+		case *ssa.UnOp:
+			if fa, ok := x.X.(*ssa.FieldAddr); ok {
+				st := fa.X.Type().Underlying().(*types.Pointer).Elem().Underlying().(*types.Struct)
+				return []tmplPart{{field: st.Field(fa.Field).Name()}}, nil
+			}
+		case *ssa.BinOp:
+			if x.Op.String() == "+" {
+				l, err := eval(x.X)
+				if err != nil {
+					return nil, err
+				}
+				r, err := eval(x.Y)
+				if err != nil {
+					return nil, err
+				}
+				return append(append([]tmplPart{}, l...), r...), nil
+			}
+		case *ssa.ChangeType:
+			return eval(x.X)
+		case *ssa.MakeInterface:
+			return eval(x.X)
+		case *ssa.Call:
+			f := x.Call.StaticCallee()
+			if f == nil {
+				break
+			}
+			if f.String() == "fmt.Sprintf" {
+				k, ok := x.Call.Args[0].(*ssa.Const)
+				if !ok {
+					break
+				}
+				format := constant.StringVal(k.Value)
+				// the variadic arguments: a slice of a fresh array filled by stores in this block
+				var args []ssa.Value
+				if len(x.Call.Args) > 1 {
+					sl, ok := x.Call.Args[1].(*ssa.Slice)
+					if !ok {
+						break
+					}
+					for _, instr := range fn.Blocks[0].Instrs {
+						if st, ok := instr.(*ssa.Store); ok {
+							if ia, ok := st.Addr.(*ssa.IndexAddr); ok && ia.X == sl.X {
+								args = append(args, st.Val)
+							}
+						}
+					}
+				}
+				var out []tmplPart
+				ai := 0
+				for i := 0; i < len(format); i++ {
+					if format[i] != '%' {
+						out = append(out, tmplPart{lit: string(format[i])})
+						continue
+					}
+					if i+1 >= len(format) || (format[i+1] != 's' && format[i+1] != 'v') || ai >= len(args) {
+						return nil, fmt.Errorf("format %q is not a plain %%s template", format)
+					}
+					p, err := eval(args[ai])
+					if err != nil {
+						return nil, err
+					}
+					out = append(out, p...)
+					ai++
+					i++
+				}
+				return out, nil
+			}
+			if f.Pkg == fn.Pkg && f.Blocks != nil {
+				nb := map[*ssa.Parameter][]tmplPart{}
+				for i, p := range f.Params {
+					if i == 0 && f.Signature.Recv() != nil {
+						continue // the receiver: field loads name the fields directly
+					}
+					if i < len(x.Call.Args) {
+						pv, err := eval(x.Call.Args[i])
+						if err != nil {
+							return nil, err
+						}
+						nb[p] = pv
+					}
+				}
+				return stringTemplate(f, nb, depth+1)
+			}
+		}
+		return nil, fmt.Errorf("%s: %s is not a constant, a field, a concatenation or a template call", fn, v)
+	}
+	for _, instr := range fn.Blocks[0].Instrs {
+		if r, ok := instr.(*ssa.Return); ok && len(r.Results) == 1 {
+			return eval(r.Results[0])
+		}
+	}
+	return nil, fmt.Errorf("%s does not return one string", fn)
+}
+
 func constStringArgs(fn *ssa.Function, callee string, arg int) []string {
 	var out []string
 	for _, b := range fn.Blocks {
@@ -236,46 +372,95 @@ func runP7(res *RunResult, prog *ssa.Program, mainPkg *ssa.Package) {
 		res.Status = "UNSUPPORTED: no validateFlags in " + mainPkg.Pkg.Path()
 		return
 	}
-	lits := append(constStringArgs(vf, "regexp.Compile", 0), constStringArgs(vf, "regexp.MustCompile", 0)...)
-	if len(lits) == 0 {
-		res.Status = "UNSUPPORTED: validateFlags compiles no constant regular expression"
-		return
-	}
-	// which flag is tested against which literal, in source order of the MatchString calls
+	// which flag is tested against which literal: every MatchString call reachable from validateFlags
+	// through functions of the same package, with the regular expression and the tested string
+	// resolved through parameters to (a) a regexp.Compile/MustCompile of a constant - local or
+	// package-level - and (b) a load of a flag variable
 	type test struct{ lit, flag string }
 	var tests []test
-	regOf := map[ssa.Value]string{}
-	for _, b := range vf.Blocks {
-		for _, instr := range b.Instrs {
-			switch x := instr.(type) {
-			case *ssa.Call:
+	var lits []string
+	globalRegex := map[*ssa.Global]string{}
+	if ini := mainPkg.Func("init"); ini != nil {
+		for _, b := range ini.Blocks {
+			for _, instr := range b.Instrs {
+				if st, ok := instr.(*ssa.Store); ok {
+					if g, ok := st.Addr.(*ssa.Global); ok {
+						if l := regexLiteral(st.Val); l != "" {
+							globalRegex[g] = l
+						}
+					}
+				}
+			}
+		}
+	}
+	var walk func(fn *ssa.Function, bind map[*ssa.Parameter]ssa.Value, depth int)
+	subst := func(v ssa.Value, bind map[*ssa.Parameter]ssa.Value) ssa.Value {
+		for i := 0; i < 8; i++ {
+			switch x := v.(type) {
+			case *ssa.Parameter:
+				if b, ok := bind[x]; ok {
+					v = b
+					continue
+				}
+			case *ssa.ChangeType:
+				v = x.X
+				continue
+			}
+			break
+		}
+		return v
+	}
+	walk = func(fn *ssa.Function, bind map[*ssa.Parameter]ssa.Value, depth int) {
+		if depth > 4 || fn.Blocks == nil {
+			return
+		}
+		for _, b := range fn.Blocks {
+			for _, instr := range b.Instrs {
+				x, ok := instr.(*ssa.Call)
+				if !ok {
+					continue
+				}
 				f := x.Call.StaticCallee()
 				if f == nil {
 					continue
 				}
-				switch f.String() {
-				case "regexp.Compile", "regexp.MustCompile":
-					if k, ok := x.Call.Args[0].(*ssa.Const); ok {
-						regOf[x] = constant.StringVal(k.Value)
+				switch {
+				case f.String() == "(*regexp.Regexp).MatchString":
+					rv, sv := subst(x.Call.Args[0], bind), subst(x.Call.Args[1], bind)
+					lit := regexLiteral(rv)
+					if u, ok := rv.(*ssa.UnOp); ok && lit == "" {
+						if g, ok := u.X.(*ssa.Global); ok {
+							lit = globalRegex[g]
+						}
 					}
-				case "(*regexp.Regexp).MatchString":
-					lit := regOf[x.Call.Args[0]]
-					if e, ok := x.Call.Args[0].(*ssa.Extract); ok {
-						lit = regOf[e.Tuple]
-					}
-					// argument is *flagvar: UnOp(load) of UnOp(load) of Global
 					name := ""
-					if u, ok := x.Call.Args[1].(*ssa.UnOp); ok {
+					if u, ok := sv.(*ssa.UnOp); ok {
 						if u2, ok := u.X.(*ssa.UnOp); ok {
 							if g, ok := u2.X.(*ssa.Global); ok {
 								name = g.Name()
 							}
 						}
 					}
+					if lit != "" {
+						lits = append(lits, lit)
+					}
 					tests = append(tests, test{lit, name})
+				case f.Pkg == mainPkg && f.Blocks != nil:
+					nb := map[*ssa.Parameter]ssa.Value{}
+					for i, p := range f.Params {
+						if i < len(x.Call.Args) {
+							nb[p] = subst(x.Call.Args[i], bind)
+						}
+					}
+					walk(f, nb, depth+1)
 				}
 			}
 		}
+	}
+	walk(vf, map[*ssa.Parameter]ssa.Value{}, 0)
+	if len(lits) == 0 {
+		res.Status = "UNSUPPORTED: validateFlags tests no flag against a constant regular expression"
+		return
 	}
 	res.Events = append(res.Events, fmt.Sprintf("regex literals %q; tests %v", lits, tests))
 	flagLit := map[string]string{}
@@ -301,19 +486,36 @@ func runP7(res *RunResult, prog *ssa.Program, mainPkg *ssa.Package) {
 			proberPkg = p
 		}
 	}
-	dbFormat := ""
+	// the database resource name as a template: constant segments and the option fields, whatever
+	// mix of fmt.Sprintf("...%s..."), string concatenation and helper methods builds it
+	var tmpl []tmplPart
 	if proberPkg != nil {
 		if tn := proberPkg.Type("ProberOptions"); tn != nil {
 			if fn := prog.LookupMethod(types.NewPointer(tn.Type()), proberPkg.Pkg, "databaseURI"); fn != nil {
-				if fs := constStringArgs(fn, "fmt.Sprintf", 0); len(fs) == 1 {
-					dbFormat = fs[0]
+				var terr error
+				tmpl, terr = stringTemplate(fn, nil, 0)
+				if terr != nil {
+					res.Status = "UNSUPPORTED: cannot read the database resource name as a template of constant segments and option fields: " + terr.Error()
+					return
 				}
 			}
 		}
 	}
-	segs := strings.Split(dbFormat, "%s")
-	if len(segs) != 4 {
-		res.Status = "UNSUPPORTED: cannot extract the database resource-name format (want 3 %s verbs): " + dbFormat
+	var segs []string
+	var order []string
+	cur := ""
+	for _, p := range tmpl {
+		if p.field == "" {
+			cur += p.lit
+		} else {
+			segs = append(segs, cur)
+			cur = ""
+			order = append(order, p.field)
+		}
+	}
+	segs = append(segs, cur)
+	if len(order) != 3 || order[0] != "Project" || order[1] != "Instance" || order[2] != "Database" {
+		res.Status = fmt.Sprintf("UNSUPPORTED: database resource name is not built from Project, Instance, Database in this order: %v", order)
 		return
 	}
 	decl := ""
